@@ -313,7 +313,12 @@ def rx_model_parse(case, built, out):
 
 RH_KINDS = ["rel", "rel_sub", "rel_up", "abs_exist", "abs_c1", "abs_c2", "abs_c3", "abs_c1_over_c2", "abs_c2_over_c3", "mixed", "via_file",
             "explicit_guid", "abs_none", "rel_none", "no_descriptor", "missing_parent_guid", "missing_requested_guid", "cycle", "self_parent",
-            "dup_shot"]
+            "dup_shot",
+            # an unresolvable ancestor at a chosen depth (gen_hdd.break_ancestor): the opened snapshot's parent, its grand-parent, the root's
+            # parent reference of a chain of >= 3; the ancestor's <Shot> deleted; the same below an explicitly requested snapshot
+            "missing_parent_top", "missing_grandparent", "missing_root_parent", "deleted_parent_shot", "deleted_root_shot", "explicit_guid_missing_parent"]
+RH_MIN_DEPTH = {"explicit_guid": 2, "cycle": 2, "missing_parent_guid": 2, "missing_grandparent": 2, "missing_root_parent": 3, "deleted_parent_shot": 2,
+                "deleted_root_shot": 3, "explicit_guid_missing_parent": 3}
 ROOT = "vm.pvm/disk.hdd"
 
 
@@ -345,11 +350,8 @@ def _place(mode, name):
 
 
 def gen_rh(rng, tier, kind):
-    while True:
-        r = gen_hdd.gen_recipe(rng, "quick", max_depth=3)
-        if kind in ("explicit_guid", "cycle", "missing_parent_guid") and len(r["chain"]) < 2:
-            continue
-        break
+    need = RH_MIN_DEPTH.get(kind, 1)
+    r = gen_hdd.gen_recipe(rng, "quick", max_depth=max(3, need + 1), min_depth=need)
     r["abs_paths"] = False
     chain = list(r["chain"])
     modes = ["rel", "rel_sub", "rel_up", "abs_exist", "abs_c1", "abs_c2", "abs_c3", "abs_c1_over_c2", "abs_c2_over_c3"]
@@ -381,6 +383,18 @@ def gen_rh(rng, tier, kind):
         for sh in r["shots"]:
             if sh[0] == chain[j]:
                 sh[1] = gen_hdd.guid(rng)
+        expect = "E"
+    elif kind in ("missing_parent_top", "missing_grandparent", "missing_root_parent"):
+        gen_hdd.break_ancestor(r, rng, {"missing_parent_top": 0, "missing_grandparent": 1, "missing_root_parent": len(chain) - 1}[kind])
+        expect = "E"
+    elif kind in ("deleted_parent_shot", "deleted_root_shot"):
+        gen_hdd.break_ancestor(r, rng, 1 if kind == "deleted_parent_shot" else len(chain) - 1, "deleted_shot")
+        expect = "E"
+    elif kind == "explicit_guid_missing_parent":
+        j = rng.randrange(1, len(chain) - 1)                 # open(chain[j]): healthy above, broken somewhere below the requested snapshot
+        guid = chain[j]
+        gen_hdd.break_ancestor(r, rng, rng.randrange(j, len(chain)))
+        chain = chain[j:]
         expect = "E"
     elif kind == "missing_requested_guid":
         guid = gen_hdd.guid(rng)
